@@ -462,11 +462,16 @@ class Check:
     # ------------------------------------------------------------------ whole allocator (vamh)
     VAMH_ALSO = {'C10': ('C13',), 'C02': (), 'C20': ()}
 
-    def vamh_failures(self, failures, source, under_faults=False):
+    def vamh_failures(self, failures, source, under_faults=False, tracedir=None):
         for f in failures or []:
             prop, sig = f.get('property'), f.get('sig', '')
             if prop != self.pid:
-                continue
+                # C10: an operation whose driver call was made to fail must return an error; a panic
+                # (reported by vamh under C13) in a fault-injection history is a C10 violation as well
+                faulty = under_faults or 'core2' in str(f.get('first_history', ''))
+                if not (self.pid == 'C10' and prop == 'C13' and sig.startswith('panic') and faulty):
+                    continue
+                prop = 'C10'
             if under_faults and 'released-spare-block' in sig:
                 continue    # giving back a spare block after a device fault is not a leak (C10)
             line = 'ORACLE-FAIL property=%s sig=%s %s' % (prop, sig, f.get('example_detail', ''))
@@ -477,6 +482,8 @@ class Check:
                 continue
             rp = '%s/replays/%s-vamh-%s.trace' % (V, self.pid, re.sub(r'[^A-Za-z0-9]+', '-', sig)[:60])
             mt = f.get('minimal_trace')
+            if not (mt and os.path.exists(mt)) and tracedir and f.get('first_history'):
+                mt = '%s/%s.trace' % (tracedir, f['first_history'])
             if mt and os.path.exists(mt):
                 shutil.copy(mt, rp)
             else:
@@ -531,6 +538,10 @@ class Check:
             cd = self.rundir + '/vamh-core'
             sh([B + '/vamh', 'gen', '-seed', str((self.seed + 11) % (1 << 62)), '-n', str(cn), '-ops', str(co), '-profile', 'core,core2,core3',
                 '-out', cd, '-shrink=false', '-summary', cd + '.json'], timeout=3300)
+            try:
+                self.vamh_failures(json.load(open(cd + '.json')).get('oracle_failures'), 'vamh gen core profiles seed=%d' % (self.seed + 11), tracedir=cd)
+            except Exception:
+                pass
             drvc = self.rundir + '/drv_vamh'
             shutil.copy(drv, drvc)
             for tf in sorted(glob.glob(cd + '/h*.trace')):
